@@ -17,13 +17,13 @@ CHECKS = {
              technique="stateful property-based testing (rapid state machine) of iavl.MutableTree against per-version map snapshots, "
                        "plus a shape invariant (AVL balance, height, leaf order) rebuilt from RenderShape",
              design_ref="DESIGN.md §7 C03",
-             level_text="Generated histories of Set/Remove/SaveVersion/reload/rollback over a tiny (8 keys) and a larger (up to ~150 keys) key space; "
+             level_text="Generated histories of Set/Remove/SaveVersion/reload/rollback/DeleteVersion (pruning of a retained non-latest version, also after rollbacks) over a tiny (8 keys) and a larger (up to ~150 keys) key space; "
                         "after every step the working tree, and at generated points and at the end every retained version, is compared completely "
                         "(Size, Get value+index, Has, GetByIndex, absent probes, full and bounded ranges in both directions, balance) with a map model. "
                         "Exploration only: histories of <=60 steps, trees of <=~200 keys.",
              level_note="Trusts tm-db MemDB, rapid and the sorted-map model. Subtree sizes are validated through Get-index/GetByIndex agreeing with "
-                        "ranks for every key. MutableTree.Rollback(), DeleteVersion(s) and IterateRangeInclusive are not exercised: no non-test caller "
-                        "in this fork uses them (pruning is commented out in iavl.Store.Commit); rollback is exercised the way rootmulti.RollbackVersion "
+                        "ranks for every key. MutableTree.Rollback(), DeleteVersions (plural) and IterateRangeInclusive are not exercised: no non-test caller "
+                        "in this fork uses them (pruning is commented out in iavl.Store.Commit; the single-version DeleteVersion is exercised as the tree's public pruning API); rollback is exercised the way rootmulti.RollbackVersion "
                         "does it (fresh tree, LoadVersion, LoadVersionForOverwriting)."),
     "C05": c("storea", "TestC05", dict(checks=500, timeout=400), dict(checks=6000, shards=14, timeout=1500),
              technique="property-based testing of rootmulti/IAVL query proofs: completeness against harness-recorded commit hashes and a map model, "
